@@ -235,6 +235,14 @@ def main(argv):
                 print(f"ok      solver_regress/{fn:55s} verdict={r.status} under PYVC_STRICT_SEQ=1 (NOT caught by the default portfolio: known z3 bug)")
             continue
         r = solve_file(Result("regress." + fn, "post", "unknown", smt_file=p), timeout=10.0)
+        if fn.startswith("probe_"):
+            if r.status != "proved" and r.vacuous:
+                print(f"ok      solver_regress/{fn:55s} verdict={r.status} vacuous=True (probe: {r.solver} says the hypotheses alone are {r.vacuity_probe})")
+            else:
+                bad += 1
+                unsound += 1
+                print(f"FAIL    solver_regress/{fn:55s} UNSOUND: status={r.status} vacuous={r.vacuous} probe={r.vacuity_probe}")
+            continue
         if r.status in ("disagree", "refuted", "unknown"):
             print(f"ok      solver_regress/{fn:55s} verdict={r.status} (prover={r.solver}, contradicted by {(r.disagree or {}).get('solver')})")
         else:
